@@ -105,6 +105,69 @@ pub fn run(rep: &mut Report, tier: &str)
             }
         }
     }
+    // longer lists: every ordering of every set of <= 4 distinct targets / sources, with and without a
+    // command; the identity as computed directly and as the build computes it (through the sorter,
+    // which names the rule's history file) must both be functions of the canonical form alone
+    let mut long_n = 0u64;
+    {
+        let tl = lists(&path_sigma, 4, false, true);
+        let chunks: Vec<&[Vec<String>]> = tl.chunks((tl.len() + 15) / 16).collect();
+        let results: Vec<(u64, Vec<(String, Rule, Rule)>)> = std::thread::scope(|sc|
+        {
+            let hs: Vec<_> = chunks.iter().map(|chunk|
+            {
+                let tl = &tl;
+                sc.spawn(move ||
+                {
+                    let mut n = 0u64;
+                    let mut bad: Vec<(String, Rule, Rule)> = vec![];
+                    for t in chunk.iter()
+                    {
+                        let mut t_sorted = t.clone();
+                        t_sorted.sort();
+                        for s in tl.iter()
+                        {
+                            let mut s_sorted = s.clone();
+                            s_sorted.sort();
+                            let disjoint = !t.iter().any(|x| s.contains(x));
+                            for c in [vec![], vec!["a".to_string()]]
+                            {
+                                n += 1;
+                                let r = Rule::new(t.clone(), s.clone(), c.clone());
+                                let r0 = Rule::new(t_sorted.clone(), s_sorted.clone(), c.clone());
+                                let want = r0.get_ticket();
+                                if r.get_ticket() != want
+                                {
+                                    if bad.len() < 4 { bad.push(("the same rule (up to order of target/source lines) gets two identities".into(), r0.clone(), r.clone())); }
+                                }
+                                if disjoint && (t.len() >= 3 || s.len() >= 3)
+                                {
+                                    match std::panic::catch_unwind(|| crate::sort::topological_sort_all(vec![r.clone()]))
+                                    {
+                                        Ok(Ok(pack)) =>
+                                        {
+                                            if pack.nodes.len() != 1 || pack.nodes[0].rule_ticket != want
+                                            {
+                                                if bad.len() < 4 { bad.push(("the identity the build uses for a rule differs from the identity of the same rule with its lines in order".into(), r0.clone(), r.clone())); }
+                                            }
+                                        },
+                                        _ => { if bad.len() < 4 { bad.push(("a single well-formed rule is rejected by the dependency analysis".into(), r0.clone(), r.clone())); } },
+                                    }
+                                }
+                            }
+                        }
+                    }
+                    (n, bad)
+                })
+            }).collect();
+            hs.into_iter().map(|h| h.join().unwrap_or((0, vec![]))).collect()
+        });
+        for (n1, b) in results
+        {
+            long_n += n1;
+            for (what, a, r) in b { bad.entry(what).or_insert((a, r)); }
+        }
+    }
     // through the parser: permuted target / source lines keep the identity; history file is named by it
     let mut parsed = 0u64;
     let sys = MemSystem::new({ let mut fs = Fs::new(); fs.put(".ruler/history/.keep", crate::memsys::bytes(""), 1, None); fs }, Cfg::plain(ClockModel::Strict));
@@ -160,16 +223,17 @@ pub fn run(rep: &mut Report, tier: &str)
     }
     rep.set("states", json!(by_canon.len()));
     rep.set("transitions", json!(n));
-    rep.set("traces_validated_against_impl", json!(n + parsed + named));
+    rep.set("traces_validated_against_impl", json!(n + parsed + named + long_n));
     rep.set("evaluations", json!(n));
     rep.set("distinct_identities", json!(by_ticket.len()));
     rep.set("distinct_canonical_forms", json!(by_canon.len()));
     rep.set("distinct_nontrivial", json!(by_canon.len()));
     rep.set("pairs_decided", json!((n as u128 * (n as u128 - 1) / 2).to_string()));
     rep.set("rules_through_parser", json!(parsed));
+    rep.set("orderings_of_up_to_4_targets_x_4_sources", json!(long_n));
     rep.set("history_files_named", json!(named));
     rep.set("exhaustive", json!(true));
-    rep.set("rule", json!("every rule (T,S,C): T,S non-empty lists of <=2 distinct strings in both orders, C a list of 0..3 strings, over the stated alphabet; partition by ticket must equal partition by (set T, set S, C)"));
+    rep.set("rule", json!("every rule (T,S,C): T,S non-empty lists of <=2 distinct strings in both orders, C a list of 0..3 strings, over the stated alphabet; partition by ticket must equal partition by (set T, set S, C); plus every ordering of every <=4-element target and source list (with and without a command) against the identity of the sorted spelling, directly and through the sorter"));
     rep.set("alphabet", json!(sigma));
     rep.push_sample(json!({"targets": ["a", "a b"], "sources": ["a:"], "command": ["a", ":a"]}));
     rep.push_sample(json!({"targets": ["a"], "sources": ["b", "a/b"], "command": []}));
